@@ -20,7 +20,7 @@ impl Family for C03Family {
             rule: "seeded interleaved histories of registrations and authentications (WebAuthn and CTAP level) over 2-4 relying parties, several users, allow lists absent / empty / subset / with unknown ids / with another RP's ids, all client-data modes and userVerification values, on the contract-conforming reference store bare and under each lock wrapper. Even indexes: fault-free single actor (strict, incl. the no-eligible-credential clause); odd indexes: store errors, user denials, cancellations and 2-3 concurrent actors (every success must still verify). Non-trivial = at least one assertion succeeded; distinct = distinct (request-shape, outcome) signature.",
             assumptions: &["p256 ECDSA verification and sha2 are trusted", "the store honours the documented lookup contract (C05 owns the shipped stores)"],
             real: &["passkey-client::Client::{register,authenticate}", "Authenticator::{make_credential,get_assertion}", "AuthenticatorData encoding", "lock wrappers over tokio::sync"],
-            stubs: &["executor", "SimStore seam + reference store", "SimUser", "seeded RNG behind the hook", "relying-party verifier and account database"],
+            stubs: &["executor", "SimStore seam + reference store (the shipped Option<Passkey> in 1 run of 8)", "SimUser", "seeded RNG behind the hook", "relying-party verifier and account database"],
             crash_isolated: false,
             fresh_thread: true,
         }
@@ -36,7 +36,10 @@ impl Family for C03Family {
     fn generate(&self, master: u64, index: u64, _tier: Tier) -> Scenario {
         let mut r = Rng::new(run_seed(master, "C03", index));
         let faulty = index % 2 == 1;
-        let opts = HistOpts { faults: faulty, concurrent: faulty && r.chance(1, 3), weights: [3, 5, 1, 3], min_ops: 2, ..Default::default() };
+        let concurrent = faulty && r.chance(1, 3);
+        // the shipped single-slot store now and then (the map store ignores the RP ID: C05's finding)
+        let backend = if !concurrent && r.chance(1, 8) { Backend::Slot } else { Backend::Ref };
+        let opts = HistOpts { faults: faulty, concurrent, backend, weights: [3, 5, 1, 3], min_ops: 2, ..Default::default() };
         let c = gen_history(&mut r, &opts);
         Scenario { family: "C03".into(), batch: if faulty { "faults" } else { "strict" }.into(), seed: master, index, body: Body::Ceremony(c) }
     }
